@@ -1,8 +1,74 @@
+import XehModel.Model.Collections
+import XehModel.Model.Tags
 import XehModel.Driver.Codec
 
 namespace Xeh.Driver.C12
+open Xeh Xeh.Codec Xeh.Coll
 
-/-- stub: not modelled yet -/
-def handle (_args : List String) : String := "unsupported"
+/-- The answer of the real red-black tree / `slice::sort` is independent of tree shape / algorithm
+    (see the header of Model/Collections.lean); otherwise the case is outside the model. -/
+def deterministic (w : String) (st : List Cell) : Bool :=
+  let mapProbe (key coll : Cell) : Bool :=
+    match coll.value with
+    | .map m => shapeFree key m.toList
+    | _ => true
+  let tagProbe (key x : Cell) : Bool :=
+    match x.tags with
+    | some t => shapeFree key t.toList
+    | none => true
+  match w, st with
+  | "insert", key :: _ :: coll :: _ => mapProbe key coll
+  | "remove", key :: coll :: _ => mapProbe key coll
+  | "get", key :: coll :: _ => mapProbe key coll
+  | "sort", v :: _ => (match v.value with | .vec xs => sortConsistent xs.toList | _ => true)
+  | "insert-tag", key :: _ :: x :: _ => tagProbe key x
+  | "remove-tag", key :: x :: _ => tagProbe key x
+  | "get-tag", key :: x :: _ => tagProbe key x
+  | _, _ => true
+
+def answer (o : Outcome (List Cell)) : String :=
+  match o with
+  | .err (.errorMsg "model:unmodelled-printer") => "unsupported"
+  | o => outcomeStackStr o
+
+/-- words of the collection and tag tables: `C12 <word> <cell>*` (cells bottom-first).
+    Builder / loop forms, run on the implementation as source text over one pushed vector or map:
+    `{}`  = `{ dup unbox } swap drop`        map literal from the cells of the vector
+    `[]`  = `[ dup unbox ] swap drop`        vector literal
+    `foreach` = `[ dup foreach I loop ] swap drop`   everything `I` pushes, collected -/
+def handle (args : List String) : String :=
+  match args with
+  | w :: cells =>
+    match readCells cells with
+    | none => "bad-args"
+    | some cs =>
+      let st := cs.reverse
+      match w, st with
+      | "{}", [c] =>
+        (match c.toVec with
+         | .ok v =>
+           if mapLiteralShapeFree v.toList [] then
+             (match mapLiteral v.toList with
+              | .ok m => answer (.ok [m])
+              | .err e => answer (.err e)
+              | .panic s => answer (.panic s))
+           else "unsupported"
+         | .err e => answer (.err e)
+         | .panic s => answer (.panic s))
+      | "[]", [c] =>
+        (match c.toVec with
+         | .ok v => answer (.ok [.vec v])
+         | .err e => answer (.err e)
+         | .panic s => answer (.panic s))
+      | "foreach", [c] =>
+        (match foreachLeaves c with
+         | .ok l => answer (.ok [.vec (CellList.ofList l)])
+         | .err e => answer (.err e)
+         | .panic s => answer (.panic s))
+      | _, _ =>
+        match (collWord w).orElse (fun _ => tagWord w) with
+        | none => "unsupported"
+        | some p => if deterministic w st then answer (p.runStack 0 st) else "unsupported"
+  | _ => "bad-op"
 
 end Xeh.Driver.C12
